@@ -138,11 +138,15 @@ class C04(SMSpec):
                     + [mkjob("S4", 2, 1, ext_per_iter=2, variant=2), mkjob("S8", 2, 0, ext_per_iter=2, variant=2), mkjob("S1", 2, 1, ext_per_iter=2, variant=2)]
                     + [mkjob("S3", 3, 0, variant=5, by_ref=True), mkjob("S4", 3, 1, variant=4, by_ref=True)]
                     + [self.twinjob("S1", 3, 0), self.twinjob("S4", 3, 0)]
+                    # stop by expiry with the decorator's own durations (incl. duration 0) and the restart instant
+                    + [mkjob("S10", 4, 1, sym_durations=False, variant=1), mkjob("S2", 5, 0, ext=False, variant=1), mkjob("S7", 5, 0, ext=False, variant=2),
+                       mkjob("S8", 4, 0, ext=False, sym_durations=False), mkjob("S10", 5, 0, ext=False, sym_durations=False, variant=3)]
                     + [mkjob("S1", 1, 0, ext_per_iter=3, variant=1), mkjob("S4", 1, 0, ext_per_iter=3, variant=1), mkjob("S3", 1, 0, ext_per_iter=3, variant=2)])
         return ([mkjob(s, 4, 2, variant=3) for s in ("S1", "S2", "S3", "S4", "S8")]
                 + [mkjob(s, 2, 3, ext_per_iter=2, nsn_depth=2, variant=4) for s in ("S1", "S2", "S4", "S8")]
                 + [mkjob("S1", 1, 1, ext_per_iter=3, variant=1), mkjob("S4", 2, 0, ext_per_iter=3, variant=1), mkjob("S3", 3, 1, variant=5, by_ref=True),
-                   self.twinjob("S1", 4, 1), self.twinjob("S4", 4, 0), self.twinjob("S2", 5, 0)])
+                   self.twinjob("S1", 4, 1), self.twinjob("S4", 4, 0), self.twinjob("S2", 5, 0),
+                   mkjob("S10", 5, 1, sym_durations=False, variant=1), mkjob("S2", 7, 0, ext=False, variant=1), mkjob("S7", 6, 0, ext=False, variant=2)])
 
     def reach_required(self, tier):
         return ["not-running-after-iteration", "default-fallback", "stop-event", "running-after-iteration",
@@ -150,6 +154,10 @@ class C04(SMSpec):
 
     def clause_fn(self, c, H):
         cl.clauses_c04(c, H)
+        cl.clauses_forced_engage(c, H, "C04")
+        if H.cfg.get("ext_menu") == "engage-only" and not H.cfg.get("twin"):
+            # continuously engaged machines: the instant at which the machine starts over after its last timed state
+            cl.timing_clauses(c, H, "C04.t")
 
     def twin(self, tier):
         def tfn(c, job):
@@ -222,8 +230,8 @@ class C13(SMSpec):
         "histories longer than K calls",
     ]
 
-    def mk(self, shape, K, budget, variant=0, nsn_depth=1, done_next=False, sym_durations=True, double_nsn=False):
-        j = mkjob(shape, K, budget, variant=variant, nsn_depth=nsn_depth, sym_durations=sym_durations, double_nsn=double_nsn)
+    def mk(self, shape, K, budget, variant=0, nsn_depth=1, done_next=False, sym_durations=True, double_nsn=False, rewrite=False):
+        j = mkjob(shape, K, budget, variant=variant, nsn_depth=nsn_depth, sym_durations=sym_durations, double_nsn=double_nsn, rewrite=rewrite)
         j["asm"] = True
         j["cfg"]["asm"] = True
         if done_next:
@@ -237,10 +245,13 @@ class C13(SMSpec):
                     self.mk("S1", 6, 1, variant=2, done_next=True), self.mk("S10", 6, 0, variant=1, sym_durations=False),
                     self.mk("S9", 6, 0, variant=2, sym_durations=False),
                     # two next_state_now() calls from one state invocation / a nested chain of them
-                    self.mk("S1", 4, 2, variant=3, double_nsn=True), self.mk("S3", 3, 2, variant=1, nsn_depth=2)]
+                    self.mk("S1", 4, 2, variant=3, double_nsn=True), self.mk("S3", 3, 2, variant=1, nsn_depth=2),
+                    # the duration topics are rewritten between (and inside) periods: the value at entry counts, every time
+                    self.mk("S6", 5, 0, variant=1, rewrite=True), self.mk("S2", 6, 0, variant=2, rewrite="enable")]
         return [self.mk("S1", 8, 2, 1), self.mk("S2", 8, 2, 2), self.mk("S3", 6, 3, 3, 2), self.mk("S7", 9, 1, 4),
                 self.mk("S8", 7, 2, 5), self.mk("S4", 6, 2, 1), self.mk("S6", 8, 1, 2), self.mk("S1", 7, 2, 3, done_next=True),
-                self.mk("S3", 6, 2, 4, done_next=True), self.mk("S1", 5, 2, variant=3, double_nsn=True), self.mk("S4", 4, 3, variant=2, nsn_depth=2, double_nsn=True)]
+                self.mk("S3", 6, 2, 4, done_next=True), self.mk("S1", 5, 2, variant=3, double_nsn=True), self.mk("S4", 4, 3, variant=2, nsn_depth=2, double_nsn=True),
+                self.mk("S6", 7, 0, variant=1, rewrite=True), self.mk("S2", 7, 0, variant=2, rewrite=True)]
 
     def reach_required(self, tier):
         return ["disabled", "iteration-after-finish", "iteration-while-disabled", "first-iteration-after-enable",
